@@ -61,6 +61,13 @@ class IntervalTree:
         if not isinstance(intervals, np.ndarray):
             intervals = np.asarray(intervals)
 
+        if not intervals.size:
+            # The empty set of intervals: nothing overlaps with anything.
+            self.left = self.right = None
+            self.size = 0
+            self.root = None
+            return
+
         # Check the intervals whether they are valid:
         self.left = np.min(intervals)
         self.right = np.max(intervals)
@@ -147,6 +154,10 @@ class IntervalTree:
                 for interval in intervals]
 
     def _query(self, query_interval, node, check_extreme=False):
+        if node is None:
+            # This tree is empty.
+            return []
+
         # Check this special case: the bounds of the query interval lie outside
         # of the bounds of this tree:
         if (check_extreme
@@ -181,6 +192,10 @@ class IntervalTree:
                 for point in points]
 
     def _query_point(self, point, node, check_extreme=False):
+        if node is None:
+            # This tree is empty.
+            return []
+
         # Check this special case: the query point lies outside of the bounds
         # of this tree:
         if check_extreme \
